@@ -210,6 +210,8 @@ def expected_listing(sess, init):
             scripts.append(kw['stack'][-1])
     hdrs = ['', '<<< scriptPubKey >>>', '<<< P2SH script >>>'] if len(scripts) == 3 or 'spendtx' in kw else ['', '<<< P2SH script >>>']
     for ph, sc in enumerate(scripts):
+        if ph == 1 and 'spendtx' in kw and len(sc) == 0 and len(scripts) == 2:
+            continue        # an empty scriptPubKey is no section: nothing of it is executed, not even a switch to it
         if ph:
             lines.append(hdrs[ph])
             what.append(('hdr', ph))
